@@ -346,4 +346,39 @@ theorem outside_untouched (buf : List Nat) (size : Nat) (ops : List Op) (hs : si
 example : ShrinksOk (encInit (List.replicate 12 170) 12) (exampleOps ++ [.patchInitial 1 1, .encode 7 3 0]) := by
   decide +kernel
 
+/-- The range-coder contracts the encoder skeletons of C02/C05 assume for their `ec_tell` readings
+    (OpusModel/EncSkel/Frame.lean, "Contracts on the oracle values"): `ec_tell ≥ 1`, and `= 1` on a fresh
+    encoder; `ec_enc_bit_logp(·, logp)` raises `ec_tell` by at most `logp` (12 and 1 in opus_encoder.c),
+    `ec_enc_uint(·, 256)` by at most 8; `ec_enc_done` leaves `rng` and `nbits_total`, hence `ec_tell` and
+    `ec_tell_frac`, unchanged. -/
+theorem tell_contracts (buf : List Nat) (size : Nat) (c : Enc) (hr : RngOk c) (hn : 33 ≤ c.nbitsTotal)
+    (v logp u : Nat) (h1 : 1 ≤ logp) (h2 : logp ≤ 15) (hu : u < 256) :
+    tell (encInit buf size) = 1 ∧ 1 ≤ tell c ∧
+    tell (encOp c (.bitLogp v logp)) ≤ tell c + logp ∧ tell (encOp c (.uint u 256)) ≤ tell c + 8 ∧
+    (encDone c).rng = c.rng ∧ (encDone c).nbitsTotal = c.nbitsTotal ∧
+    tell (encDone c) = tell c ∧ tellFrac (encDone c) = tellFrac c := by
+  obtain ⟨b1, b2⟩ := tell_step_bounds c hr v logp h1 h2 u hu
+  obtain ⟨t1, t2⟩ := tell_eq_of_rn (encDone_rng c) (encDone_nbitsTotal c)
+  have hil := ilog_le_32 hr
+  refine ⟨by show (33 : Int) - ((ilog 2147483648 : Nat) : Int) = 1; decide +kernel, ?_, b1, b2, encDone_rng c, encDone_nbitsTotal c, t1, t2⟩
+  unfold tell; omega
+
+/-- "`8·(offs+end_offs)+1 ≤ ec_tell` and `offs+end_offs ≤ storage` at any time" (the contract behind the
+    `celt_assert(offs+end_offs<=size)` of `ec_enc_shrink(&enc, (ec_tell+7)>>3)`): after every legal run
+    that has not raised the error flag, the bytes written from both ends — and even all range-coder
+    digits, pending ones included — number strictly less than `ec_tell/8`, so shrinking the buffer to
+    `(ec_tell+7)>>3` bytes (or anything larger) always satisfies the assert. -/
+theorem bytes_below_tell (buf : List Nat) (size : Nat) (ops : List Op) (hs : size ≤ buf.length)
+    (hb : BytesOk buf) (hl : LegalRun (encInit buf size) ops)
+    (hn : (encRun (encInit buf size) ops).nbitsTotal < 4294967296)
+    (herr : (encRun (encInit buf size) ops).error = 0) :
+    let e := encRun (encInit buf size) ops
+    8 * ((e.offs : Int) + e.endOffs) + 1 ≤ tell e ∧ (e.offs : Int) + e.endOffs ≤ (tell e + 7) / 8 ∧
+    e.offs + e.endOffs ≤ e.storage ∧ e.storage ≤ size := by
+  intro e
+  obtain ⟨ac, ri⟩ := acct_run ops _ (runInv_encInit buf size hs hb) (acct_encInit buf size) hl hn herr
+  obtain ⟨_, h2⟩ := bytes_lt_tell e ri ac
+  have fr := encRun_frame ops (encInit buf size) (frame_encInit buf size hs) (shrinksOk_of_legalRun ops _ hl)
+  exact ⟨h2, by omega, fr.cur, fr.sto⟩
+
 end OpusProps.C08
